@@ -17,7 +17,7 @@ META = {
                    "integer value) and the handler's fault schedule are symbolic; after every operation the invariant (scope stack = "
                    "[base], instance / schema / store documents unchanged) is asserted and the next operation's result equals a fresh "
                    "validator's.  Every operation restoring the invariant makes histories of any length chains of such steps.",
-    "bounds": {"history length": "<= 2 operations + final probe (quick), <= 3 (thorough)", "k": "0..2", "schema": "one per draft containing every reference kind"},
+    "bounds": {"history length": "1 operation + final probe (quick), 2 operations + final probe (thorough, drafts 4 and 7)", "k": "0..2", "schema": "one per draft containing every reference kind"},
     "outside": ["re-entering a validator while one of its own iterators is suspended (excluded by the property)", "threads"],
     "stubs": ["message formatting", "the http handler is a harness function with a symbolic fault schedule"],
     "assumptions": ["CPython finalises an abandoned generator promptly (the plain-interpreter replay is the arbiter)"],
@@ -165,7 +165,7 @@ def step(d, n_ops):
                 tags=["valid", "invalid"])
 
 
-def cube(d, n_ops, first_op, first_key=None):
+def cube(d, n_ops, first_op, first_key=None, second_op=None):
     spec = step(d, n_ops)
     inner = spec.pre
 
@@ -173,6 +173,8 @@ def cube(d, n_ops, first_op, first_key=None):
         if not inner(ops, keys, vals, ks, faults):
             return False
         if ops[0] != first_op:
+            return False
+        if second_op is not None and ops[1] != second_op:
             return False
         return first_key is None or keys[0] == first_key
 
@@ -191,10 +193,12 @@ def conditions(tier, seed, active):
                 out.append(dict(id="step/d%d/op%d/key%d" % (d, o, k), module=__name__, factory="cube",
                                 params=dict(d=d, n_ops=1, first_op=o, first_key=k), timeout=900, tags=[],
                                 witness=["valid", "invalid"] if (d == 7 and k == 5 and o < 2) else []))
-        h2 = [(o, k) for o in range(N_OPS) for k in range(len(KEYS))]
-        if quick:
-            h2 = rng.sample(h2, 2) if d in (4, 7) else []
-        for o, k in h2:
-            out.append(dict(id="history2/d%d/op%d/key%d" % (d, o, k), module=__name__, factory="cube",
-                            params=dict(d=d, n_ops=2, first_op=o, first_key=k), timeout=1800 if quick else 3600, tags=[], witness=[]))
+        # two operations + probe: measured 2000+ paths / 2200 s when only the first operation and key are fixed, so these are
+        # cubed on (first op, first key, second op) and run in the thorough tier only
+        if not quick and d in (4, 7):
+            for o in range(N_OPS):
+                for k in range(len(KEYS)):
+                    for o2 in range(N_OPS):
+                        out.append(dict(id="history2/d%d/op%d/key%d/op%d" % (d, o, k, o2), module=__name__, factory="cube",
+                                        params=dict(d=d, n_ops=2, first_op=o, first_key=k, second_op=o2), timeout=3600, tags=[], witness=[]))
     return out
